@@ -197,6 +197,27 @@ def _subst_generics(term, callee, fn):
     return rec(term)
 
 
+_PTR_RW_RE = None
+
+
+def _ptr_rw_kind(full):
+    """'read' / 'write' for the std raw-pointer read and write primitives (free functions and methods, any instantiation), else None"""
+    global _PTR_RW_RE
+    import re
+    if _PTR_RW_RE is None:
+        _PTR_RW_RE = re.compile(r"^(?:std|core)::ptr::(?:(?:mut_ptr|const_ptr)::<impl \*(?:mut|const) .*>::)?(read|write)(?:_unaligned|_volatile)?(?:::<.*>)?$")
+    m = _PTR_RW_RE.match(full or "")
+    return m.group(1) if m else None
+
+
+def _has_deref(t):
+    while isinstance(t, tuple) and t and t[0] in ("field", "deref", "variant", "index", "proj"):
+        if t[0] == "deref":
+            return True
+        t = t[1]
+    return False
+
+
 class TermEval:
     def __init__(self, facts, cg=None, inline=True, inline_depth=4):
         self.facts = facts
@@ -447,11 +468,35 @@ class TermEval:
                     full = r["full"] if isinstance(r, dict) else fn["full"]
                 else:
                     full = "<indirect:%s>" % (self.operand(env, t["func"], body),)
+                # one spelling for "the address of an initialised slot": `slot.as_ptr()` / `slot.as_mut_ptr()` designate what
+                # `slot.assume_init_ref()` / `slot.assume_init_mut()` designate (terms do not distinguish pointers from references)
+                if full.startswith("std::mem::MaybeUninit::<") and full.endswith(">::as_ptr"):
+                    full = full[:-len("as_ptr")] + "assume_init_ref"
+                elif full.startswith("std::mem::MaybeUninit::<") and full.endswith(">::as_mut_ptr"):
+                    full = full[:-len("as_mut_ptr")] + "assume_init_mut"
                 val = None
-                if self.inline and c is not None and c.target is not None and depth < self.inline_depth and c.target.path not in self.no_inline:
+                # a place accessed through its own address: `addr_of!(P).read()` is the value of P, `addr_of_mut!(P).write(v)` is `P = v`
+                rw = _ptr_rw_kind(full)
+                if rw == "read" and len(argt) == 1 and argt[0][0] == "ref" and argt[0][1][0] in ("field", "deref"):
+                    val = argt[0][1]
+                elif rw == "write" and len(argt) == 2 and argt[0][0] == "ref" and argt[0][1][0] == "field" and _has_deref(argt[0][1]):
+                    res.stores.append((argt[0][1], argt[1], bb))
+                    val = ("unit",)
+                if val is None and self.inline and c is not None and c.target is not None and depth < self.inline_depth and c.target.path not in self.no_inline:
                     val = self.try_inline(c.target, argt, depth + 1, res)
                     if val is not None and fn:
                         val = _subst_generics(val, c.target, fn)
+                # `?` on a value this very path has constructed: Try::branch / FromResidual on Option and Result aggregates
+                if val is None and full and full.endswith(" as std::ops::Try>::branch") and len(argt) == 1 and argt[0][0] == "agg" \
+                        and argt[0][1] == "adt" and (argt[0][2] or "").split("<")[0] in ("std::option::Option", "std::result::Result"):
+                    a_ = argt[0]
+                    if a_[3] in ("Some", "Ok") and len(a_[4]) == 1:
+                        val = ("agg", "adt", "std::ops::ControlFlow", "Continue", (("0", a_[4][0][1]),))
+                    elif a_[3] in ("None", "Err"):
+                        val = ("agg", "adt", "std::ops::ControlFlow", "Break", (("0", a_),))
+                if val is None and full and " as std::ops::FromResidual<" in full and full.endswith(">::from_residual") and len(argt) == 1 \
+                        and argt[0][0] == "agg" and argt[0][1] == "adt" and argt[0][3] == "None":
+                    val = ("agg", "adt", "std::option::Option", "None", ())
                 if val is None and full and full.split("::<")[0] in ("std::ptr::eq", "std::ptr::addr_eq", "core::ptr::eq") and len(argt) == 2:
                     val = ("cmp", "Eq", strip_refs(argt[0]), strip_refs(argt[1]))      # address comparison = `==` on raw pointers
                 if val is None:
@@ -493,6 +538,11 @@ class TermEval:
                 adt, vname = x[2], x[3]
             elif isinstance(x, tuple) and x[0] == "const" and isinstance(x[1], str) and "::" in x[1]:
                 adt, vname = x[1].rsplit("::", 1)
+            if vname is not None and adt is not None:
+                std = {"std::option::Option": ("None", "Some"), "std::result::Result": ("Ok", "Err"),
+                       "std::ops::ControlFlow": ("Continue", "Break")}.get(adt.split("<")[0])
+                if std is not None and vname in std:
+                    return std.index(vname)
             if vname is not None:
                 for name, a in self.facts.adts.items():
                     if a.get("kind") == "enum" and (adt is None or name == adt or name.endswith("::" + adt.split("::")[-1]) or adt.endswith(name)):
